@@ -1,0 +1,45 @@
+//go:build verif
+
+package rvesting
+
+// Contracts for the verification machinery in /verif (comment-only file; no code).
+//
+// verif:import sdk github.com/cosmos/cosmos-sdk/types
+// verif:import types github.com/teleport-network/teleport/x/rvesting/types
+// verif:import authtypes github.com/cosmos/cosmos-sdk/x/auth/types
+// verif:spec modaddr(name string) sdk.AccAddress
+// verif:spec amountOf(c sdk.Coins, d string) MathInt
+// verif:spec rvestingParams(ctx sdk.Context) types.Params
+//
+// rewardFacts = exactly what validatePerBlockReward establishes (its own contract proves it);
+// distinctDenoms is what the proof of the schedule additionally needs (see types/zz_verif_contracts.go).
+// verif:pred rewardFacts(r) := len(r) != 0 && forall i int :: 0 <= i && i < len(r) ==> len(r[i].Denom) != 0 && r[i].Amount >= 0
+// verif:pred distinctDenoms(r) := forall i int :: forall j int :: 0 <= i && i < j && j < len(r) ==> r[i].Denom != r[j].Denom
+// verif:pred pool() := modaddr(types.ModuleName)
+
+// ---- BeginBlocker (C20, C15) ---------------------------------------------------------------------
+
+// verif:func BeginBlocker
+//@ let p   = rvestingParams(ctx)
+//@ let rw  = p.PerBlockReward
+//@ let src = modaddr(types.ModuleName)
+//@ let dst = modaddr(k.feeCollectorName)
+//@ requires rewardFacts(rw)
+//@ requires distinctDenoms(rw)
+//@ requires src != dst
+//@ requires forall a sdk.AccAddress :: forall d string :: bank(ctx)[a][d] >= 0
+//@ modifies bank(ctx)
+//@ nopanic
+//@ ensures [disabled-noop] !p.EnableVesting ==> bank(ctx) == old(bank(ctx))
+//@ ensures [schedule]      p.EnableVesting ==> forall i int :: 0 <= i && i < len(rw) ==>
+//@        bank(ctx)[src][rw[i].Denom] == old(bank(ctx))[src][rw[i].Denom] - min(rw[i].Amount, old(bank(ctx))[src][rw[i].Denom])
+//@ ensures [to-collector]  p.EnableVesting ==> forall i int :: 0 <= i && i < len(rw) ==>
+//@        bank(ctx)[dst][rw[i].Denom] == old(bank(ctx))[dst][rw[i].Denom] + min(rw[i].Amount, old(bank(ctx))[src][rw[i].Denom])
+//@ ensures [other-denoms]  forall d string :: (forall i int :: 0 <= i && i < len(rw) ==> rw[i].Denom != d) ==>
+//@        bank(ctx)[src][d] == old(bank(ctx))[src][d] && bank(ctx)[dst][d] == old(bank(ctx))[dst][d]
+//@ ensures [other-accounts] forall a sdk.AccAddress :: forall d string :: a != src && a != dst ==> bank(ctx)[a][d] == old(bank(ctx))[a][d]
+//@ ensures [supply]        forall d string :: bank(ctx)[src][d] + bank(ctx)[dst][d] == old(bank(ctx))[src][d] + old(bank(ctx))[dst][d]
+//@ ensures [never-negative] forall d string :: bank(ctx)[src][d] >= 0
+//@ loop 1 invariant [bank]    bank(ctx) == old(bank(ctx))
+//@ loop 1 invariant [done]    forall j int :: 0 <= j && j < idx1 ==> amountOf(vestedCoins, rw[j].Denom) == min(rw[j].Amount, bank(ctx)[src][rw[j].Denom])
+//@ loop 1 invariant [rest]    forall d string :: (forall j int :: 0 <= j && j < idx1 ==> rw[j].Denom != d) ==> amountOf(vestedCoins, d) == 0
